@@ -92,6 +92,7 @@ impl IndicatorConfig for Kaufman {
 
 	fn validate(&self) -> bool {
 		self.period3 > self.period2
+			&& self.period3 < PeriodType::MAX
 			&& self.period2 > 0
 			&& self.period1 > 0
 			&& (self.k > 0.0 || self.filter_period < 2)
